@@ -912,3 +912,55 @@ Proof.
     rewrite !Qred_correct in H1. unfold Qeq in H1. cbn [Qnum Qden] in H1. lia.
   - repeat split; eexists; vm_compute; reflexivity.
 Qed.
+
+(* ---- statements of Properties/C13.v ---- *)
+
+Lemma cache_states : forall (truth : calendar) t a,
+  CacheOk truth t a [] /\
+  forall e s ds s' answers,
+    run_ok truth t a e -> Inv truth t a s ->
+    lookups true e s ds = Ok (s', answers) ->
+    CacheOk truth t a (s_cache s').
+Proof.
+  intros truth t a. split; [apply CacheOk_nil | ].
+  intros e s ds s' answers R I E.
+  destruct (lookups_step truth t a e ds s R I) as (s1 & E1 & I1).
+  rewrite E in E1. inversion E1; subst. exact (inv_cache _ _ _ _ I1).
+Qed.
+
+Lemma no_download_when_covered :
+  forall (truth : calendar) today avail e s d s',
+    run_ok truth today avail e -> Inv truth today avail s -> e_force e = false ->
+    (forall r, cache_has s d -> exact true e s d = Ok (s', r) ->
+               s_dl s' = s_dl s /\ s_cache s' = s_cache s) /\
+    (forall r, (forall x, d - 7 <= x <= d -> cache_has s x) ->
+               effective true e s d = Ok (s', r) -> s_dl s' = s_dl s).
+Proof.
+  intros truth today avail e s d s' R I F. split.
+  - intros r H E. exact (exact_covered truth today avail e s d s' r I F H E).
+  - intros r H E. exact (effective_covered truth today avail e s d s' r R I F H E).
+Qed.
+
+Lemma unfixed_stale_refuted :
+  exists (truth : calendar) runs params,
+    runs_ok truth 0 0 runs params /\
+    exists s outs,
+      history false empty_st runs = Ok (s, outs) /\
+      map fst outs <> ref_answers truth runs params.
+Proof.
+  exists ex_truth, ex_runs, ex_params. split; [exact ex_runs_ok | ].
+  destruct unfixed_stale as (s & outs & E & N & _).
+  exists s, outs. split; assumption.
+Qed.
+
+Lemma c13_example :
+  runs_ok ex_truth 0 0 ex_runs ex_params /\
+  CacheOk ex_truth 0 0 (s_cache empty_st) /\
+  exists s outs,
+    history true empty_st ex_runs = Ok (s, outs) /\
+    map fst outs = ref_answers ex_truth ex_runs ex_params /\
+    map snd outs = [[2022]; [2022]].
+Proof.
+  split; [exact ex_runs_ok | ]. split; [apply CacheOk_nil | ].
+  exact fixed_example.
+Qed.
